@@ -40,7 +40,7 @@ const GEN_SEED: u64 = 19_19_19;
 const CFG: Config = Config { days: 2, versions: 2 };
 
 fn alpha(n: u8, anc: u8, foreign: bool, dup: bool, ages: &[i64]) -> Alphabet {
-    Alphabet { n_clients: n, anc_max: anc, foreign, dup_payload: dup, snapshots: true, ages: ages.to_vec(), big_payload: false, huge_payload: false }
+    Alphabet { n_clients: n, anc_max: anc, foreign, dup_payload: dup, snapshots: true, ages: ages.to_vec(), big_payload: false, huge_payload: false, id_family: 0 }
 }
 
 fn gen_params(a: Alphabet, depth: usize) -> SeqParams {
